@@ -219,14 +219,16 @@ func (s *Sim) logf(format string, a ...interface{}) {
 type Holdings struct {
 	Native map[common.Address]*big.Int
 	Tokens map[common.Address]map[common.Address]*big.Int
+	Nonces map[common.Address]uint64
 }
 
 // Snapshot reads the committed holdings of every address in the universe now.
 func (s *Sim) Snapshot() *Holdings {
 	st := s.Committed()
-	h := &Holdings{Native: map[common.Address]*big.Int{}, Tokens: map[common.Address]map[common.Address]*big.Int{}}
+	h := &Holdings{Native: map[common.Address]*big.Int{}, Tokens: map[common.Address]map[common.Address]*big.Int{}, Nonces: map[common.Address]uint64{}}
 	for a := range s.Universe {
 		h.Native[a] = new(big.Int).Set(st.GetBalance(a))
+		h.Nonces[a] = st.GetNonce(a)
 		m := map[common.Address]*big.Int{}
 		for _, tv := range st.GetTokenBalances(a) {
 			if tv.TokenAddr != common.EmptyAddress {
